@@ -706,6 +706,12 @@ func (ev *evaluator) call(e *Expr) (*Term, error) {
 			return dom, nil
 		}
 		return tag, nil
+	case "minwidth":
+		a, err := ev.args(e)
+		if err != nil {
+			return nil, err
+		}
+		return ev.x.V.minWidthTerm(a[0]), nil
 	case "extends", "suffixof": // extends(new, old): new = old ++ something;  suffixof(new, old): old = something ++ new
 		a, err := ev.args(e)
 		if err != nil {
